@@ -20,6 +20,8 @@ use crate::rng::Rng;
 #[derive(Clone, Debug, Serialize, Deserialize, PartialEq, Eq)]
 pub enum MapOp {
     Insert { k: u8, v: u32, global: bool },
+    /// `extend()` with these pairs: documented as local inserts.
+    Extend(Vec<(u8, u32)>),
     Begin,
     End,
     /// Rebuild by replaying `iter_all()` through `FromIterator`, in a new process.
@@ -270,6 +272,13 @@ where
                     *stats.entry("reach.map_global_insert_at_depth_ge_2").or_insert(0) += 1;
                 }
                 model.insert(*k as usize, *v, *global);
+            }
+            MapOp::Extend(pairs) => {
+                map.extend(pairs.iter().map(|(k, v)| (*k as usize, *v)));
+                for (k, v) in pairs {
+                    model.insert(*k as usize, *v, false);
+                }
+                *stats.entry("reach.map_extend").or_insert(0) += 1;
             }
             MapOp::Begin => {
                 map.begin_group();
@@ -873,6 +882,14 @@ impl Property for C20 {
                             ops.push(MapOp::End);
                             depth = depth.saturating_sub(1);
                         }
+                    } else if x < p_rebuild + 36 {
+                        let n = 1 + rng.below(3);
+                        let mut pairs = vec![];
+                        for _ in 0..n {
+                            next_v += 1;
+                            pairs.push((rng.below(nkeys as usize) as u8, next_v));
+                        }
+                        ops.push(MapOp::Extend(pairs));
                     } else {
                         next_v += 1;
                         ops.push(MapOp::Insert {
